@@ -98,10 +98,148 @@ PLANS = {
         level_note='Trusted: Lean kernel; the hand-written model of Html<T>, to_buffer, HtmlBuffer and std write_all (validated by the tie).',
         design_ref='DESIGN.md §6 C06',
     ),
+    'C11': dict(
+        module='RucteProps.C11',
+        theorems=[],
+        runs=[dict(suite='parse', mix='examples,mutate,tokens,nesting,exhaustive,structured',
+                   n=dict(quick=6000, thorough=1000000), projection='accept', tags=['C11'])],
+        correspondence='accept / reject / panic of template(), and for a rejection the line number, echoed line and caret column of every diagnostic, vs Ructe.template + Ructe.showErrors (message wording is not compared)',
+        rule='token-alphabet strings (33 tokens) exhaustively to length 3 (quick) / 4 (thorough) behind a valid header, random token strings to length 9, mutations/splices of the example templates, structured templates, nesting 1..100 of every bracket / block kind closed and unclosed; non-trivial = distinct accepted syntax trees + rejected inputs with a diagnostic',
+        assumptions=['stack exhaustion of the real recursion is runtime behaviour outside the model; nesting to 100 levels is exercised directly'],
+        level_text='no_panic / reject_has_diag / diag_in_range style theorems about the model parser and show_errors for all byte strings; tie: differential run on accept/reject/panic and diagnostic positions; oracle on the implementation: no panic, at least one diagnostic, line/column inside the input, echoed line is the source line.',
+        level_note='Trusted: Lean kernel; hand-written model of the nom-8 combinators and of ructe\'s grammar (validated by the tie); fuel adequacy (termination) is argued, see DESIGN.md.',
+        design_ref='DESIGN.md §6 C11',
+    ),
+    'C01': dict(
+        module='RucteProps.C01',
+        theorems=[],
+        runs=[dict(suite='parse', mix='examples,text,structured', n=dict(quick=4000, thorough=200000), projection='body',
+                   tags=['C01'], literal_oracle=True)],
+        correspondence='syntax tree of the parse and the body of the generated code vs Ructe.template / Ructe.writeRust; every printed text literal is decoded by the Lean model of rustc\'s literal lexer and compared with the text node',
+        rule='every ASCII code point except @{} alone / at the start / middle / end of a run, at 7 nesting positions; random text over quotes, backslashes, CR/LF, NUL, controls, multi-byte scalars, escape look-alikes, the three escapes, comments; structured templates with their documented tree; non-trivial = distinct accepted syntax trees',
+        assumptions=['rustc lexes literals as the Rust Reference says (modelled by decodeStrLit / decodeByteStrLit; rustc itself is the judge in the e2e runs)'],
+        level_text='Literal round-trip theorems (decodeByteStrLit (escapeAscii t) = t, decodeStrLit (strDebug t) = t for every text and every uniEsc) + grammar lemmas; tie: differential run on tree and code, printed literals decoded by the model lexer.',
+        level_note='Trusted: Lean kernel; hand-written model of the parser/emitter and of Rust literal syntax.',
+        design_ref='DESIGN.md §6 C01',
+    ),
+    'C05': dict(
+        module='RucteProps.C05',
+        theorems=[],
+        runs=[dict(suite='sub', n=dict(quick=20000, thorough=600000), projection='identity', tags=['C05']),
+              dict(suite='parse', mix='structured,examples', n=dict(quick=2000, thorough=60000), projection='body', tags=['C05'])],
+        correspondence='consumed length / value / error list of expression, expr_inside_parens, quoted_string, rust_comment and the other named sub-parsers, and the syntax tree + body code of whole templates, vs the Lean transcription',
+        rule='expressions from the documented grammar (prefix, atom, postfix chain, nested groups with plain runs / strings with every supported escape and embedded delimiters / block comments with embedded delimiters and quotes / division followed by delimiters and quotes) x 18 follower classes; near-miss token strings through 15 sub-parsers; non-trivial = distinct documented fragments',
+        assumptions=['the fragment is opaque Rust: that it reaches rustc unmodified is the correspondence on the printed code; that it is evaluated once is the e2e run'],
+        level_text='Soundness theorems for the expression scanners (consumed prefix = value, suffix-respecting) + tie on extent for the documented grammar x follower classes; completeness (maximal munch) is validated by the generator oracle, not yet proved.',
+        level_note='Trusted: Lean kernel; hand-written transcription of expression.rs (validated by the tie). K direction partial.',
+        design_ref='DESIGN.md §6 C05',
+    ),
+    'C13': dict(
+        module='RucteProps.C13',
+        theorems=[],
+        runs=[dict(suite='parse', mix='decl,examples,structured', n=dict(quick=4000, thorough=100000), projection='header', tags=['C13'])],
+        correspondence='the printed signature (use lines, lifetime list, parameter lines) of every accepted template vs Ructe.fnHeader',
+        rule='0..8 parameters over 16 type shapes incl. Content / ContentType / Contents / MyContent / &Content / Vec<Content>, 7 colon layouts, parameter names resembling internals, 0..3 use lines incl. renames/globs/nested braces; non-trivial = distinct accepted syntax trees',
+        assumptions=['that calls with values of the declared types type-check is rustc\'s judgement (e2e)'],
+        level_text='Theorems about printParam (only a parameter whose type is exactly Content is rewritten) and fnHeader (sink first, parameters in order, use lines verbatim); tie on the printed signature; independent oracle recomputes the expected parameter lines from the source.',
+        level_note='Trusted: Lean kernel; hand-written model of write_rust.',
+        design_ref='DESIGN.md §6 C13',
+    ),
+    'C15': dict(
+        module='RucteProps.C15',
+        theorems=[],
+        runs=[dict(suite='parse', mix='structured', n=dict(quick=5000, thorough=150000), projection='text', tags=['C15'])],
+        correspondence='generated code, byte for byte, of canonical and perturbed prints of the same source tree vs the model\'s single answer',
+        rule='every structured template printed canonically and twice with random admissible layouts (white space, LF, CRLF, tabs, 8 comment shapes incl. `**@` endings) at every slot kind; non-trivial = distinct accepted syntax trees',
+        assumptions=[],
+        level_text='Metamorphic oracle on the implementation (canonical vs perturbed print give byte-identical code and the documented tree) + tie on the full text; spacelike soundness lemmas; the K theorem layout_irrelevant is not yet proved.',
+        level_note='Trusted: Lean kernel; hand-written model; generator\'s notion of admissible layout.',
+        design_ref='DESIGN.md §6 C15',
+    ),
 }
 
 
 NOT_YET = {}
+
+
+# ------------------------------------------------------------------------------ literal oracle (C01)
+def ast_texts(dump):
+    """text nodes of a syntax-tree dump, in source (= emission) order"""
+    i = dump.find('],[')   # skip preamble list … robustly: take the body = last top-level list
+    body = dump[dump.rfind(',[', 0, len(dump)) if False else 0:]
+    return [unhex(m.group(1)) for m in re.finditer(r'(?<![0-9a-f])X((?:[0-9a-f]{2})+)', body_of(dump))]
+
+
+def body_of(dump):
+    """the body list of `ok T([uses],ta,[args],[body])`"""
+    # the third top-level '[' after 'T(' opens the body
+    depth = 0
+    starts = []
+    for i, c in enumerate(dump):
+        if c == '[':
+            if depth == 0:
+                starts.append(i)
+            depth += 1
+        elif c == ']':
+            depth -= 1
+    return dump[starts[2]:] if len(starts) >= 3 else ''
+
+
+LIT_RE = re.compile(r'_ructe_out_\.write_all\((.*?)\)\?;\n')
+
+
+def literal_oracle(res, ctx, tags=('C01',)):
+    """Decode every literal the implementation printed for a text node with the Lean model of
+    Rust's literal lexer and compare it with the text node of the implementation's own syntax tree."""
+    reqs, items = [], []
+    for i in range(0, len(res['req']) - 1, 2):
+        a = res['impl'][i].split(' ')
+        d = res['impl'][i + 1]
+        if a[0] != 'ok' or len(a) < 2 or not d.startswith('ok '):
+            continue
+        code = txt(a[1])
+        texts = ast_texts(d)
+        lits = []
+        lits = LIT_RE.findall(code)
+        src_hex = res['req'][i].split(' ')[2]
+        if len(lits) != len(texts):
+            items.append((i, src_hex, None, None, f'{len(texts)} text nodes but {len(lits)} write_all statements'))
+            continue
+        for l, t in zip(lits, texts):
+            if l.startswith('b"'):
+                kind, lit = 'b', l
+            elif l.endswith('.as_bytes()') and l.startswith('"'):
+                kind, lit = 's', l[:-len('.as_bytes()')]
+            else:
+                items.append((i, src_hex, l, t, 'unrecognised literal form'))
+                continue
+            reqs.append(f'declit {kind} ' + (lit.encode().hex() or '-'))
+            items.append((i, src_hex, l, t, None))
+    wd = res['wdir']
+    with open(wd + '/lit_req.txt', 'w') as f:
+        f.write('\n'.join(reqs) + ('\n' if reqs else ''))
+    with open(wd + '/lit_req.txt', 'rb') as fin:
+        out = subprocess.run([ctx['driver']], stdin=fin, capture_output=True, timeout=3600).stdout.decode().split('\n')
+    fails = []
+    k = 0
+    n_checked = 0
+    for (i, src_hex, l, t, problem) in items:
+        if problem is None:
+            ans = out[k] if k < len(out) else ''
+            k += 1
+            n_checked += 1
+            want = 'some ' + (t.hex() or '-')
+            if ans == want:
+                continue
+            if ans == 'none':
+                problem = f'the printed literal {l!r} does not lex as one Rust literal (rustc rejects the generated file)'
+            else:
+                got = unhex(ans.split(' ')[1]) if ans.startswith('some ') else ans
+                problem = f'the printed literal {l!r} denotes {got!r}, the template text is {t!r}'
+        fails.append(dict(tags=list(tags), kind='literal-not-text', case=i // 2, src_hex=src_hex,
+                          src=unhex(src_hex).decode('utf-8', 'replace'), detail=problem))
+    return fails, n_checked
+
 
 # ------------------------------------------------------------------------------ execution
 def compare(res, projection):
@@ -139,6 +277,10 @@ def execute(prop, plan, ctx):
         disagreements += d
         oracle += [o for o in res['oracle'] if set(o.get('tags', [])) & set(r['tags'])]
         st = res['stats']
+        if r.get('literal_oracle'):
+            lf, nlit = literal_oracle(res, ctx, tags=r['tags'])
+            oracle += lf
+            st['literals.decoded'] = nlit
         cov['evaluations'] += st.get('cases', len(res['req']))
         cov['distinct_nontrivial'] += sum(v for kk, v in st.items() if kk.startswith('distinct.'))
         cov['distribution'][f"{r['suite']}:{r.get('mix', 'all')}"] = st
@@ -163,6 +305,8 @@ def search(prop, plan, ctx, disagreements, pr):
                 continue
             evals += len(res['req'])
             oracle += [o for o in res['oracle'] if set(o.get('tags', [])) & set(r['tags'])]
+            if r.get('literal_oracle'):
+                oracle += literal_oracle(res, ctx, tags=r['tags'])[0]
         if oracle:
             break
     return dict(oracle=oracle, coverage=dict(evaluations=evals))
